@@ -516,22 +516,11 @@ func (r *vRun) byteCases(pool [][2]interface{}) {
 					return reflect.ValueOf(x).Elem(), nil
 				}
 			}
+			// kind 1 = the path that (as the code stands) does not migrate, kind 2 = the one that does: which
+			// is which is decided by the MODEL (Model.path_migrates), the harness only says which API it called
 			r.decodeCase(1, m, b, sg.name+"-ProtoUnmarshaler", wrap(sg.unmarshalPB), wrap(sg.unmarshalPB))
-			kind := 1
-			if sg.reqMigrates {
-				kind = 2
-			}
-			r.decodeCase(kind, m, b, sg.name+"-ExportRequest.UnmarshalProto", wrap(sg.reqUnmarshalPB), wrap(sg.reqUnmarshalPB))
-			// the mechanism itself: after a migrating decode path no deprecated scope field is left
-			if sg.reqMigrates {
-				if x, err := sg.reqUnmarshalPB(b); err == nil {
-					t := r.s.tree(m, reflect.ValueOf(x).Elem())
-					if n := r.s.deprecatedLeft(m, t); n > 0 {
-						r.out.Oracle("migrate", vCaseTerm(2, m.id, "VSome ("+t.String()+")", b, 0), fmt.Sprintf("%s: %d deprecated scope field(s) still set after ExportRequest.UnmarshalProto (otlp.Migrate must move them to scope_* and clear them)", sg.name, n))
-					}
-					r.hist["migrate_checked"]++
-				}
-			}
+			r.decodeCase(2, m, b, sg.name+"-ExportRequest.UnmarshalProto", wrap(sg.reqUnmarshalPB), wrap(sg.reqUnmarshalPB))
+			r.decodePaths(sg, m, b)
 		}
 	}
 }
@@ -621,5 +610,74 @@ func (s *vSchema) legacySender(m *vMsg, v reflect.Value) {
 			d.Set(a)
 			a.Set(reflect.Zero(a.Type()))
 		}
+	}
+}
+
+// the migration contract on the implementation alone ("Any plog.Unmarshaler implementation from OTLP
+// (proto/json) MUST call this", internal/otlp/*.go): after EVERY public protobuf decode path no
+// deprecated scope field is left, and the public paths decode the same bytes to the same payload.
+func (r *vRun) decodePaths(sg *vSignal, m *vMsg, b []byte) {
+	x, e1 := sg.reqUnmarshalPB(b)
+	y, e2 := sg.unmarshalPB(b)
+	if (e1 == nil) != (e2 == nil) {
+		r.out.Oracle("decode-paths", vCaseTerm(1, m.id, "VNone", b, 0), fmt.Sprintf("%s: ExportRequest.UnmarshalProto and ProtoUnmarshaler disagree on accepting the same bytes (%v / %v)", sg.name, e1, e2))
+		return
+	}
+	if e1 != nil {
+		return
+	}
+	r.hist["decode_paths_checked"]++
+	tx, ty := r.s.tree(m, reflect.ValueOf(x).Elem()), r.s.tree(m, reflect.ValueOf(y).Elem())
+	if n := r.s.deprecatedLeft(m, tx); n > 0 {
+		r.out.Oracle("migrate", vCaseTerm(2, m.id, "VSome ("+tx.String()+")", b, 0), fmt.Sprintf("%s: %d deprecated scope field(s) still set after ExportRequest.UnmarshalProto (otlp.Migrate must move them to scope_* and clear them)", sg.name, n))
+	}
+	if n := r.s.deprecatedLeft(m, ty); n > 0 {
+		r.hist["pb_unmarshaler_left_deprecated"]++
+		r.out.Oracle("migrate", vCaseTerm(1, m.id, "VSome ("+ty.String()+")", b, 0), fmt.Sprintf("known:proto-unmarshaler-does-not-migrate %s: %d deprecated scope field(s) still set after ProtoUnmarshaler.Unmarshal (pb.go never calls otlp.Migrate: the scopes of a legacy payload are invisible through the pdata API)", sg.name, n))
+	}
+	if tx.String() != ty.String() {
+		tm := ty.clone()
+		r.s.migrateTree(m, tm)
+		js := ""
+		if j, err := sg.marshalJSON(y); err == nil {
+			if z, err := sg.unmarshalJSON(j); err == nil {
+				p1, _ := sg.marshalPB(y)
+				p2, _ := sg.marshalPB(z)
+				if !bytes.Equal(p1, p2) {
+					js = fmt.Sprintf("; the payload does not survive JSON either: Marshal(UnmarshalJSON(MarshalJSON(x))) has %d bytes, Marshal(x) %d", len(p2), len(p1))
+				}
+			}
+		}
+		if tm.String() == tx.String() {
+			r.out.Oracle("decode-paths", vCaseTerm(1, m.id, "VSome ("+ty.String()+")", b, 0), fmt.Sprintf("known:proto-unmarshaler-does-not-migrate %s: ProtoUnmarshaler and ExportRequest.UnmarshalProto decode the same bytes to different payloads; they agree once otlp.Migrate is applied to the former%s", sg.name, js))
+		} else {
+			r.out.Oracle("decode-paths", vCaseTerm(1, m.id, "VSome ("+ty.String()+")", b, 0), fmt.Sprintf("%s: ProtoUnmarshaler and ExportRequest.UnmarshalProto decode the same bytes to different payloads, and not because of the migration: %s", sg.name, vDiff(tx, ty)))
+		}
+	}
+}
+
+// otlp.MigrateX on a tree: in every resource, scope_* (2) takes the deprecated field (1000) when empty; 1000 is cleared
+func (s *vSchema) migrateTree(m *vMsg, t *vT) {
+	if len(m.fields) == 0 || m.fields[0].ty != vtMsg || m.fields[0].card != vcRep {
+		return
+	}
+	rm := m.fields[0].msg
+	i2, i1000 := -1, -1
+	for i, f := range rm.fields {
+		if f.num == 2 {
+			i2 = i
+		}
+		if f.num == 1000 {
+			i1000 = i
+		}
+	}
+	if i2 < 0 || i1000 < 0 {
+		return
+	}
+	for _, e := range t.kids[0].kids {
+		if len(e.kids[i2].kids) == 0 {
+			e.kids[i2] = e.kids[i1000]
+		}
+		e.kids[i1000] = &vT{k: 'r'}
 	}
 }
